@@ -57,8 +57,8 @@ func main() {
 		r := prng.ForCase(f.Seed, k)
 		o.Case(k)
 		nv := 4
-		if thorough && k%4 == 3 {
-			nv = 7
+		if (thorough && k%4 == 3) || (!thorough && k%8 == 7) {
+			nv = 7 // f = 2
 		}
 		pf := profileFor(r, k, thorough)
 		if thorough {
